@@ -33,6 +33,9 @@ FIXED_BASES = [
     ("verif_fx_deep2", [["x", "a"], ["inv", "exp"], ["*", "-"]], 5),
     # the rewriting rules that pull powers out of a logarithm (log_abs(inv(H)) - G -> -log_abs(H) - G) first apply at complexity 5
     ("verif_fx_logrule", [["x", "a"], ["inv", "log_abs"], ["+", "-", "*"]], 5),
+    # differences of two parameters under an even / positive operator (|a0| - |a1| after the first round): the pairwise-combination table of sympy_simplify
+    ("verif_fx_absdiff", [["x", "a"], ["exp"], ["+", "-"]], 5),
+    ("verif_fx_absdiff2", [["x", "a"], ["square", "sqrt_abs"], ["+", "-"]], 5),
 ]
 
 
